@@ -214,7 +214,10 @@ def _chain_links(run):
     # L5 write_image forwards
     f = project.fn(PYR + ".PyramidIO.write_image")
     run.note_func(f)
-    evp = sym.make_evaluator(project, PYR, [])
+    evp = sym.make_evaluator(project, PYR, [], inline_local=True)       # the save may sit in a private helper of the I/O class ("store this tile")
+    evp.self_class = PYR + ".PyramidIO"
+    evp.inline_resolved = True
+    evp.no_inline = ("save", "tile_path", "is_completely_masked", "read_image", "update_image", "load_path", "get_default_format")
     r = evp.run(f.node)
     sv = [e for e in r.events if e.kind == "call" and e.term[1][0] == "attr" and e.term[1][2] == "save"]
     svb = (evp.bound_args(sv[0].term)[1] or dict(sv[0].term[3])) if sv else {}
@@ -291,8 +294,28 @@ def _r2_merger_semantics(run):
     # provenance first: each bound is computed from the children's recorded bound of the same polarity
     def fields(t):
         return {a[2] for a in _subterms(t) if a[0] == "attr" and a[2] in ("data_min", "data_max")}
+    # a range computed through a table / array the callback allocates and fills (np.full((4, 2), nan); table[i] = (lo, hi);
+    # np.fmin.reduce(table[:, 0])): what was stored into that object counts as its provenance -- but which entry ends up in which
+    # reduction is array semantics the rule does not evaluate
+    def stored_into_new(t):
+        news = [a for a in _subterms(t) if a[0] == "new"]
+        vals = []
+        for e in r.events:
+            if e.kind == "store" and any(nw in _subterms(e.term[1][0]) for nw in news):
+                vals.append(e.term[1][1])
+            if e.kind == "call" and e.term[1][0] == "attr" and e.term[1][2] in ("append", "extend", "add", "insert", "fill") and any(nw in _subterms(e.term[1][1]) for nw in news):
+                vals.extend(e.term[2])
+        return news, vals
     for slot, t, want, other in (("min_value", mn, "data_min", "data_max"), ("max_value", mx, "data_max", "data_min")):
         got = fields(t)
+        news, vals = stored_into_new(t)
+        if want not in got and news:
+            got_new = set()
+            for v_ in vals:
+                got_new |= fields(v_)
+            run.undecided("C14.R2", f, wr[0].node, "the parent's %s is computed through %s, a container the callback fills itself (with %s): the reduction over it is not "
+                          "evaluated" % (slot, show(news[0])[:60], sorted(got_new) or "nothing recognisable"), kind="parent-range-container")
+            return
         if want not in got:
             dep = show(t)[:80]
             src = "the merged array / reused buffer" if ("_buf" in dep or "merged" in dep or "_merger" in dep) else dep
